@@ -5,30 +5,46 @@
    flags after; after a reload relative to the fresh generation's all-alive dialers).  C15 (selection) proves, for
    ANY history of notifications, that a group's alive set of a type is the spec's VIEW of that history
    (C15_index_consistent) and that fixed / random / min-latency selections are judged correctly against the views
-   (C15_select_*_ok, C15_select_min, C15_select_complete, C15_best_is_alive).  Neither development says that the
-   view a group ends up with is the set of nodes that ARE alive.  This file composes them:
+   (C15_select_random_ok, C15_select_min, C15_select_complete, C15_best_is_alive).  Neither development says that
+   the view a group ends up with is the set of nodes that ARE alive.  This file composes them.
 
-     the edges C16's model emits since the current generation of groups was created are replayed, per group, into
-     C15's bookkeeping (`replay`), with arbitrary latency updates and run-time policy switches in between;
-     Link_view_is_C16_alive       after ANY C16 history the C15 view of every type = {members C16 holds alive}
-     Link_alive_set_is_C16_alive  ... and so is aliveEntries / dialerToIndex of the C15 model of the Go set
-     Link_sets_agree_three_way    ... which is also C16's own alive set of that group (C16_groups_agree)
-     Link_select_never_dead       random / min-latency: a selected node is C16-alive for the type that admitted it
-     Link_select_random_every_alive   random: every C16-alive non-excluded member of the admitting type can be selected
-     Link_select_finds_alive      random / min: `no alive node` iff C16 holds no non-excluded member alive on the chain
-     Link_best_is_C16_alive       min-latency: the standing choice is C16-alive; exists whenever a member is alive
-   Corners where "never selects a dead node" is FALSE are witnesses, and the matching condition is a named
-   hypothesis of the theorems above: Link_fixed_selects_dead_witness (set_policy), Link_last_resort_selects_dead_witness
-   (no_last_resort), Link_duplicate_member_witness (members_distinct), Link_reload_no_alive_witness (consequence of
-   the open C16 finding reload-leaves-group-without-alive-member).
+   The edges C16's model emits since the current generation of groups was created (= since the last reload) are
+   replayed, per group, into C15's bookkeeping (`replay`: edge (n, d, b) of a member -> OAlive pos (nt d) b; ONotify
+   pos (nt d) b), with arbitrary latency updates, run-time policy switches and truthful re-notifications
+   (`extra`) in between.  Then, after ANY C16 history (reloads, suppression, forced reports, escalation included):
+     Link_view_is_C16_alive         the C15 view of every type = {members C16 holds alive for it}
+     Link_store_flags_are_C16       the members' own flags in C15's store = C16's flags
+     Link_cands_are_C16_alive       the candidates of a selection = C16-alive non-excluded members
+     Link_alive_set_is_C16_alive    aliveEntries / dialerToIndex of the C15 model of the Go set = the same set
+     Link_sets_agree_three_way      ... = C16's own alive set of that group (C16_groups_agree), through pos_of / node_at
+     Link_serving_type_C16          the type that serves a selection = first type of the documented chain (data-UDP ->
+                                    DNS-UDP -> TCP, then the other family) with a C16-alive non-excluded member
+     Link_select_never_dead         random / min-latency: a selected node is C16-alive for the serving type, not excluded
+     Link_select_random_every_alive random: every C16-alive non-excluded member of the serving type can be selected
+     Link_select_no_alive_iff       random / min: `no alive node` iff C16 holds no non-excluded member alive on the chain
+     Link_best_is_C16_alive         min-latency: the standing choice is C16-alive; exists whenever a member is alive
+     Link_best_iff_connectivity_bit min-latency: standing choice exists iff C16's kernel connectivity bit is 1
+   Corners where "never selects a dead node" is FALSE are witnesses (vm_compute), and the matching condition is a
+   named hypothesis of the theorems above:
+     Link_fixed_selects_dead_witness        (hypothesis g_policy G = GSet _ : the `fixed` policy ignores health)
+     Link_last_resort_selects_dead_witness  (no_last_resort: one-node group, strict caller)
+     Link_duplicate_member_witness          (members_distinct: position vs identity)
+     Link_untruthful_notification_witness   (extras_truthful)
+     Link_reload_no_alive_witness           (no hypothesis: the models agree; the OPEN C16 finding
+                                             reload-leaves-group-without-alive-member reaches selection as `no alive node`)
 
    Representations.  C16: node = N (global id), type = dom (6 constructors), group = member list (node, offset).
    C15: dialer = nat (position in DialerGroup.Dialers), type = ntype = dom * ipv, cfg = (n, offsets, tolerance).
-   Adapters below: nt / dom_of (types), pos_of / node_at (identities), cfg15 (configuration), edge_ops / log_ops /
-   replay (notifications).  Existing theorems are USED, not restated: C16_edge_triggered, C16_groups_agree
-   (C16_Props.v), C15_index_consistent, C15_select_random_ok, C15_select_min, C15_select_complete, C15_fixed_ith,
-   C15_best_is_alive (C15_Props.v); from Proofs files only m_run_snoc, m_init_health (C16), view_mem_in,
-   select_rand_spec, chain_selection_types (C15: the random completeness direction has no Props statement). *)
+   Adapters: nt / dom_of (types; inverse, same enumeration order and same fallback chains: nt_standard_order,
+   nt_chain, nt_other_ver), pos_of / node_at (identities; inverse on a group without repeated members:
+   pos_of_node_at, node_at_eq_iff), cfg15 / group_cfg (configuration; offset_adapter), pol_matches (policies),
+   edge_ops / log_ops / replay / group_replay (notifications), last_generation (cut at the last reload).
+   Existing theorems are USED, not restated: C16_edge_triggered, C16_groups_agree, C16_connectivity_bit,
+   C16_reload_floor_refuted (C16_Props.v); C15_index_consistent, C15_select_random_ok, C15_select_min,
+   C15_select_complete, C15_best_is_alive (C15_Props.v).  From Proofs files only: m_run_snoc, m_init_health (C16);
+   view_mem_in, view_remove_fst, idx_ok_in, ntype_eqb_eq, find_app', and — for Link_select_random_every_alive,
+   because C15_Props.v has no statement that the random selection reaches EVERY candidate — select_rand_spec,
+   chain_selection_types (C15). *)
 From Coq Require Import List ZArith NArith Bool Arith Lia.
 From Dae Require Import C15_Spec C15_Model C15_Proofs C15_Props.
 From Dae Require C16_Spec C16_Model C16_Proofs C16_ProofsEdges C16_ProofsHealth.
@@ -656,9 +672,9 @@ Proof.
   - intros [k [A [B C]]]. exists k. split; [apply in_seq; lia|]. rewrite B. now apply onat_neq.
 Qed.
 
-(* the type that admits a selection (C15_Spec.first_nonempty over the views) is the first type of the documented
+(* the type that serves a selection (C15_Spec.first_nonempty over the views) is the first type of the documented
    chain for which C16 holds a non-excluded member alive *)
-Theorem Link_admitting_type_C16 :
+Theorem Link_serving_type_C16 :
   forall (c16 : H.config) (g : H.group) (extra : nat -> list op) (p0 : gpol) (h : list H.ev) (sp : spol)
          (excl : option nat) (ts : list ntype),
     members_distinct g -> extras_truthful c16 g extra h ->
@@ -679,7 +695,7 @@ Proof.
       assert (X : cand16b c16 h g excl t = true) by (apply cand16b_true; now exists k). congruence. }
   now rewrite E.
 Qed.
-Print Assumptions Link_admitting_type_C16.
+Print Assumptions Link_serving_type_C16.
 
 Lemma select_empty_group : forall c G rq strict excl, c_n c = O -> select c G rq strict excl = MErr ENoDialer 0.
 Proof. intros c G rq strict excl E. unfold select, select1. rewrite E. reflexivity. Qed.
@@ -707,7 +723,7 @@ Proof.
                            | exact (C15_select_min c p0 _ rq strict excl m _ Hn Hp Hin)]. }
     unfold select_ok in Hok. rewrite En, <- Hpol, Hp in Hok.
     assert (Hsp : ss_policy (spec_run c p0 (group_replay c16 g extra h)) = GSet sp) by congruence.
-    rewrite (Link_admitting_type_C16 c16 g extra p0 h sp excl _ Hd Hx Hsp) in Hok.
+    rewrite (Link_serving_type_C16 c16 g extra p0 h sp excl _ Hd Hx Hsp) in Hok.
     destruct (find (cand16b c16 h g excl) (tried (key_of rq) strict)) as [t'|] eqn:Ef.
     + exists t'. split; [reflexivity|]. apply Bool.andb_true_iff in Hok. destruct Hok as [Hm _].
       apply view_mem_in in Hm.
@@ -716,7 +732,7 @@ Proof.
 Qed.
 Print Assumptions Link_select_never_dead.
 
-(* ---- headline 5: random policy: every member C16 holds alive for the admitting type (and not excluded) can be
+(* ---- headline 5: random policy: every member C16 holds alive for the serving type (and not excluded) can be
    selected.  (Uses select_rand_spec / chain_selection_types of C15_Proofs.v: C15_Props.v has no statement that
    the random selection reaches EVERY candidate.) ---- *)
 Theorem Link_select_random_every_alive :
@@ -739,7 +755,7 @@ Proof.
   assert (Hc : In k (cands excl (ss_views st15 t'))).
   { apply (Link_cands_are_C16_alive c16 g extra p0 h SRandom excl t' k Hd Hx Hsp). tauto. }
   assert (Hff : forall ts, first_nonempty (ss_views st15) excl ts = find (cand16b c16 h g excl) ts)
-    by (intros ts; exact (Link_admitting_type_C16 c16 g extra p0 h SRandom excl ts Hd Hx Hsp)).
+    by (intros ts; exact (Link_serving_type_C16 c16 g extra p0 h SRandom excl ts Hd Hx Hsp)).
   assert (Hn : c_n c <> O) by (unfold c, group_cfg, cfg15; cbn [c_n]; lia).
   clearbody st15 G c.
   unfold select, select1. rewrite Hp, Hs. destruct (c_n c) as [|n] eqn:En; [congruence|].
@@ -780,7 +796,7 @@ Proof.
   unfold no_last_resort.
   assert (E : forall t', cands excl (ss_views (spec_run c p0 (group_replay c16 g extra h)) t') = [] <->
                          cand16b c16 h g excl t' = false).
-  { intros t'. pose proof (Link_admitting_type_C16 c16 g extra p0 h sp excl [t'] Hd Hx Hsp) as A.
+  { intros t'. pose proof (Link_serving_type_C16 c16 g extra p0 h sp excl [t'] Hd Hx Hsp) as A.
     unfold first_nonempty in A. cbn [find] in A.
     destruct (cands excl (ss_views (spec_run (group_cfg c16 g) p0 (group_replay c16 g extra h)) t')) eqn:Ec;
       fold c in Ec; rewrite Ec; destruct (cand16b c16 h g excl t'); try discriminate; split; congruence. }
@@ -858,8 +874,8 @@ Theorem Link_fixed_selects_dead_witness :
   /\ alive16 (wit_cfg [wF_g]) [fail 7 H.Tcp4] wF_g 0 (DTcp, V4) = false
   /\ pipeline (wit_cfg [wF_g]) wF_g no_extra (GFixed 0) [fail 7 H.Tcp4] (rq_tcp V4) true None = [ROk 0 0].
 Proof.
-  split; [|split; [exact I | split; vm_compute; reflexivity]].
-  unfold members_distinct. cbn. repeat constructor; cbn; intuition discriminate.
+  split; [unfold members_distinct; cbn [wF_g H.g_members map fst]; repeat constructor; cbn [In]; intuition discriminate|].
+  split; [exact I|]. split; vm_compute; reflexivity.
 Qed.
 Print Assumptions Link_fixed_selects_dead_witness.
 
@@ -874,8 +890,9 @@ Theorem Link_last_resort_selects_dead_witness :
   /\ pipeline (wit_cfg [wL_g]) wL_g no_extra (GSet SRandom) [fail 7 H.Tcp4] (rq_tcp V4) false None = [ROk 0 0]
   /\ alive16 (wit_cfg [wL_g]) [fail 7 H.Tcp4] wL_g 0 (DTcp, V6) = true.
 Proof.
-  split; [|repeat split; vm_compute; reflexivity].
-  unfold members_distinct. cbn. repeat constructor; cbn; intuition discriminate.
+  split; [unfold members_distinct; cbn [wL_g H.g_members map fst]; repeat constructor; cbn [In]; intuition discriminate|].
+  split; [vm_compute; reflexivity|]. split; [vm_compute; reflexivity|]. split; [vm_compute; reflexivity|].
+  split; vm_compute; reflexivity.
 Qed.
 Print Assumptions Link_last_resort_selects_dead_witness.
 
@@ -889,7 +906,7 @@ Theorem Link_duplicate_member_witness :
   /\ pipeline (wit_cfg [wD_g]) wD_g no_extra (GSet SRandom) [fail 7 H.Tcp4] (rq_tcp V4) true None = [ROk 1 0].
 Proof.
   split; [|split; vm_compute; reflexivity].
-  unfold members_distinct. cbn. intros Hn. inversion Hn as [|x l Hnin _]; subst. apply Hnin. now left.
+  unfold members_distinct. cbn [wD_g H.g_members map fst]. intros Hn. inversion Hn as [|x l Hnin _]; subst. apply Hnin. now left.
 Qed.
 Print Assumptions Link_duplicate_member_witness.
 
@@ -903,8 +920,8 @@ Theorem Link_untruthful_notification_witness :
   /\ alive16 (wit_cfg [wU_g]) [fail 5 H.Tcp4] wU_g 1 (DTcp, V4) = false
   /\ pipeline (wit_cfg [wU_g]) wU_g wU_extra (GSet SRandom) [fail 5 H.Tcp4] (rq_tcp V4) true None = [ROk 0 0; ROk 1 0].
 Proof.
-  split; [|repeat split; vm_compute; reflexivity].
-  unfold members_distinct. cbn. repeat constructor; cbn; intuition discriminate.
+  split; [unfold members_distinct; cbn [wU_g H.g_members map fst]; repeat constructor; cbn [In]; intuition discriminate|].
+  split; [vm_compute; reflexivity|]. split; vm_compute; reflexivity.
 Qed.
 Print Assumptions Link_untruthful_notification_witness.
 
@@ -925,7 +942,8 @@ Theorem Link_reload_no_alive_witness :
   /\ HM.as_entries (HM.m_sets (HM.m_run HP.wit_cfg2 HP.wit_h_floor) 0 H.Tcp6) = []
   /\ pipeline HP.wit_cfg2 wR_g no_extra (GSet (SMin MLast)) HP.wit_h_floor (rq_tcp V6) true None = [RErr ENoAlive hour].
 Proof.
-  split; [reflexivity|]. split; [unfold members_distinct; cbn; repeat constructor; cbn; intuition discriminate|].
+  split; [reflexivity|].
+  split; [unfold members_distinct; cbn [wR_g H.g_members map fst]; repeat constructor; cbn [In]; intuition discriminate|].
   split; [vm_compute; reflexivity|]. split; [vm_compute; reflexivity|]. split; [vm_compute; reflexivity|].
   split; [exact (proj1 C16_reload_floor_refuted) | vm_compute; reflexivity].
 Qed.
@@ -982,9 +1000,10 @@ Example Link_C15_C16_nonvacuous :
   /\ HM.m_bits (HM.m_run ex_cfg ex_h) 1 H.Tcp4 = true
   /\ HM.as_entries (HM.m_sets (HM.m_run ex_cfg ex_h) 1 H.Tcp4) = [(9%N, 0%Z)].
 Proof.
-  split; [unfold members_distinct; cbn; repeat constructor; cbn; intuition discriminate|].
-  split; [unfold members_distinct; cbn; repeat constructor; cbn; intuition discriminate|].
-  repeat split; vm_compute; reflexivity.
+  split; [unfold members_distinct; cbn [ex_g0 H.g_members map fst]; repeat constructor; cbn [In]; intuition discriminate|].
+  split; [unfold members_distinct; cbn [ex_g1 H.g_members map fst]; repeat constructor; cbn [In]; intuition discriminate|].
+  do 10 (split; [vm_compute; reflexivity|]).
+  split; [vm_compute; split; reflexivity|]. split; vm_compute; reflexivity.
 Qed.
 Print Assumptions Link_C15_C16_nonvacuous.
 
@@ -998,3 +1017,31 @@ Proof.
   exact (Link_select_never_dead ex_cfg ex_g0 ex_extra0 (GSet SRandom) ex_h SRandom (rq_tcp V4) true None k l D0 X0 P0 L0 Hin).
 Qed.
 Print Assumptions Link_C15_C16_nonvacuous_applied.
+
+(* ------------------------------------------------------------------------------------------------ *)
+(* Summary of the interface                                                                           *)
+(* ------------------------------------------------------------------------------------------------ *)
+(* DISCHARGED (no longer hypotheses of the composed statements):
+   - "the view / alive set C15's selection theorems quantify over is the set of alive nodes": proved from
+     C16_edge_triggered for every C16 history (Link_view_is_C16_alive, Link_alive_set_is_C16_alive);
+   - initial state: C16's fresh dialers (all alive) = C15's store0 / view_build (all alive) (model_alive_nil, Inv15_init);
+   - reload / inherited health: the new generation starts all-alive on both sides and the reload's own edge log
+     (relative to all-alive, as C16_edge_triggered states it) is replayed first (last_generation, replay_invariant);
+   - forced reports, escalation, suppression, ignorable errors: nothing to assume, they only shape the edge log;
+   - notifications for nodes outside the group: not delivered (edge_ops), and harmless (Inv15_edge, second case);
+   - type encodings, enumeration order, fallback chains, offsets: adapter lemmas of Part 1;
+   - C15's c_n <> 0 side condition: discharged in Link_select_never_dead (an empty group selects nothing);
+   - the `first dialer without latency` branch / kernel bit: both sides agree (Link_best_iff_connectivity_bit).
+   REMAIN (explicit, each with a witness that it cannot be dropped):
+   - members_distinct g        : no node listed twice in a group (C15 numbers positions, C16 / Go key by identity);
+   - g_policy G = GSet sp      : random or a min-latency policy at selection time; `fixed` hands out dead nodes by design;
+   - no_last_resort c strict   : not (one-node group and strict caller);
+   - extras_truthful           : what reaches the C15 set besides C16's edges is latency updates, policy switches and
+                                 notifications that repeat the CURRENT C16 flag.  C16's model does not expose the list
+                                 of informDialerGroupUpdate calls (only the edge log m_tlog and its own sets m_sets),
+                                 so "every non-edge call is truthful" is not proved here; Link_sets_agree_three_way
+                                 shows the membership reached through all calls (C16's m_sets) is the one reached
+                                 through the edges alone.
+   NOT LINKED: the callback logs (C15 cblog vs C16 m_blog) and the latency the set caches for a member (C16 passes
+   it through an oracle latmap keyed by (node, group, type); C15 reads a per-node summary lat3): only membership,
+   the standing choice's aliveness and the connectivity bit are composed. *)
